@@ -9,7 +9,11 @@
 (*           substitution of the examples, over ALL printable ASCII plus    *)
 (*           the control and non-ASCII stand-ins: a loosened class, a stray *)
 (*           metacharacter or an unescaped dot admits some character that   *)
-(*           the narrow alphabets need not contain.                         *)
+(*           the narrow alphabets need not contain;                         *)
+(*   splice  for the keyword matchers, every prefix of a documented word    *)
+(*           glued to every suffix of a documented word (abs+top,           *)
+(*           text+middle, ...): a factored alternation accepts cross        *)
+(*           products the documentation does not list.                      *)
 (* Every generated string is emitted with the verdict of the documented     *)
 (* form; the harness asks the real regexp.                                  *)
 (***************************************************************************)
@@ -56,6 +60,17 @@ Examples(m) ==
     [] m = "NumberOrPercent" -> {<<"1","0","0">>, <<"5","0","%">>}
     [] m = "Paragraph" -> {<<"H","i",","," ","y","o","u","!">>, <<"i","t","'","s"," ","(","o","k",")"," ","[","1","]","/","2",".">>, <<>>}
 
+KeywordWords(mm) ==
+  CASE mm = "CellAlign" -> CellAlignWords
+    [] mm = "CellVerticalAlign" -> CellVAlignWords
+    [] mm = "Direction" -> DirectionWords
+    [] mm = "ImageAlign" -> ImageAlignWords
+    [] mm = "ListType" -> ListTypeWords
+    [] OTHER -> {}
+Splices(mm) == {SubSeq(w1, 1, i) \o SubSeq(w2, j, Len(w2)) :
+                  <<w1, w2, i, j>> \in {x \in KeywordWords(mm) \X KeywordWords(mm) \X (0..12) \X (1..13) :
+                                         x[3] <= Len(x[1]) /\ x[4] <= Len(x[2]) + 1}}
+
 VARIABLES m, s, mode, nsub
 vars == <<m, s, mode, nsub>>
 
@@ -63,6 +78,7 @@ Init == \/ m \in Matchers /\ s = <<>> /\ mode = "build" /\ nsub = 0
         \/ m \in Matchers /\ s \in Examples(m) /\ mode = "mutate" /\ nsub = 0
         \/ m \in Matchers /\ s = <<>> /\ mode = "wide" /\ nsub = 0
         \/ m \in Matchers /\ s \in Examples(m) /\ mode = "widemutate" /\ nsub = 0
+        \/ m \in Matchers /\ s \in Splices(m) /\ mode = "splice" /\ nsub = 0
 
 Next == \/ /\ mode = "build" /\ Len(s) < MaxLen
            /\ \E c \in Alphabet(m) : s' = Append(s, c)
